@@ -7,7 +7,7 @@ l2_square_reg (parameter 0 = falsy = no constraint), n_iter_max 0-4, tol in {def
 the ratios observed at a chosen iteration by probe runs}.  Predicates: (a) C13_admm_unconstrained_bound: with n_const given, no
 constraint, dual_var = 0, every row of the returned x is within (rho / (mu + rho))^n of the least-squares solution and the dual
 variable is still zero; (b) C13_admm_returns: every call with n_iter_max >= 1 that proximal_operator accepts returns, in particular the
-documented stand-alone call (n_const = 1, order left at its default: repaired by a5b9e5b); n_iter_max = 0 raises (known finding admm_zero_iterations)."""
+documented stand-alone call (n_const = 1, order left at its default: repaired by a5b9e5b) and n_iter_max = 0 (repaired by fe4edf7)."""
 import numpy as np
 from harness import common as C
 
@@ -18,12 +18,6 @@ KIND_NAME = {0: "none", 1: "non_negative", 2: "l1_reg", 3: "l2_square_reg"}
 
 def optnat(v):
     return "None" if v is None else f"(Some {int(v)}%nat)"
-
-
-def clf_admm_zero_iterations(f):
-    """admm called with n_iter_max = 0 raises UnboundLocalError (x_split is never bound)"""
-    inp = f.get("inputs") or {}
-    return bool(inp.get("admm_call")) and inp.get("n_iter_max") == 0 and "UnboundLocalError" in str(f.get("message", ""))
 
 
 def call_admm(admm, UtM, G, x, dual, n_const, order, kind, par, iters, tol):
@@ -92,15 +86,13 @@ def run_cases(chk, rng, count, admm, add_case, gen_problem, dyadic_start, impl_c
         chk.hist("solver", "admm(whole function)/" + KIND_NAME[kind])
         ok = st == "ok" and all(np.all(np.isfinite(np.asarray(a, dtype=float))) for a in out)
         eo = 0 if order is None else order           # repaired code (a5b9e5b): order = None selects mode 0
-        if st != "ok" and iters == 0:
-            # C13_admm_returns_partial excludes exactly this call (n_iter_max = 0: x_split is never bound)
-            chk.finding(EP_ADMM, inp, f"admm(n_iter_max=0) raised: {out}", "C13_admm_returns")
-        elif st != "ok" and (n_const is None or eo < n_const):
+        if st != "ok" and (iters == 0 or n_const is None or eo < n_const):      # C13_admm_returns (repaired code fe4edf7: also n_iter_max = 0)
             chk.finding(EP_ADMM, inp, f"admm raised although proximal_operator accepts (n_const, order): {out}", "C13_admm_returns")
         if ok:
             xo, xs, dv = [np.asarray(a, dtype=float) for a in out]
             impl = f"(Ok ({mat_lit(xo)}, {mat_lit(xs)}, {mat_lit(dv)}))"
-            if kind == 1 and n_const is not None and float(np.min(xo)) < 0:
+            # C13_admm_nonneg_returns_nonneg: at least one iteration or a non-negative start (n_iter_max = 0 returns the start itself)
+            if kind == 1 and n_const is not None and (iters >= 1 or float(np.min(x)) >= 0) and float(np.min(xo)) < 0:
                 chk.finding(EP_ADMM, inp, "admm(non_negative=True) returned a negative entry", "C13_admm_nonneg", observed=xo)
         else:
             impl = "Err"
@@ -232,7 +224,8 @@ def replay(payload, admm):
     elif payload.get("predicate") == "C13_admm_nonneg_fixed_point_kkt":
         msg, _ = nonneg_message(lambda fn: C.call_impl(fn, timeout=240), admm, G, UtM, x, dual, inp.get("n_const"), inp.get("order"))
     elif payload.get("predicate") == "C13_admm_nonneg":
-        msg = f"raised {out}" if st != "ok" else ("negative entry" if float(np.min(out[0])) < 0 else None)
+        claim = int(inp.get("n_iter_max", 1)) >= 1 or float(np.min(x)) >= 0
+        msg = f"raised {out}" if st != "ok" else ("negative entry" if claim and float(np.min(out[0])) < 0 else None)
     else:
         msg = f"raised {out}" if st != "ok" else None
     print("replay admm (whole function):", msg or "holds")
